@@ -106,6 +106,13 @@ CAMPAIGNS = {
                ex(ph(["sort_order"], True, pick=8), ph(["sort_order"], True, "r", 12))],
         thorough=[ex(ph(["sort_order"], True), ph(["sort_order", "transpose", "align_to"], True, "r")),
                   ex(ph(HIST, pick=10), ph(FULLREORDER, True, "r"))]),
+    "rename_lengths": model_campaign(
+        # every renaming family on axes of length 4 under the ID palettes whose IDs differ in length, sort order and
+        # case (the width of the stored ID array must fit every kept and every new ID)
+        "rename_lengths", heaps="len4", palettes=[["long_ids", "plain"], ["numeric_ids", "plain"], ["case_ids", "plain"],
+                                                  ["unicode", "plain"]],
+        quick=[ex(ph(["update_ids"], True, "r"))],
+        thorough=[ex(ph(["update_ids"], True, "r")), ex(ph(HIST, pick=8), ph(["update_ids"], True, "r"))]),
     "involutions": model_campaign(
         "involutions",
         quick=[ex(ph(["transpose"]), ph(["transpose"], False, "r")),
@@ -442,7 +449,7 @@ PROPERTIES = {
     },
     "C06": {
         "level": "model_checking",
-        "campaigns": [CAMPAIGNS["reorder_full"], CAMPAIGNS["reorder_len4"], CAMPAIGNS["reorder_universe"], CAMPAIGNS["recorded_suite"], CAMPAIGNS["involutions"]],
+        "campaigns": [CAMPAIGNS["reorder_full"], CAMPAIGNS["reorder_len4"], CAMPAIGNS["rename_lengths"], CAMPAIGNS["reorder_universe"], CAMPAIGNS["recorded_suite"], CAMPAIGNS["involutions"]],
         "assumptions": ["copy.deepcopy, scipy toarray and numpy are trusted for the projection"],
     },
 }
